@@ -290,6 +290,12 @@ func (r *Run) Finish() int {
 		fmt.Printf("INCONCLUSIVE property=%s: observed too little (distinct_nontrivial=%d < %d)\n", r.Prop, nd, r.MinDistinct)
 		return 2
 	}
+	if len(r.incon) >= 10 {
+		// a few cases lost to a loaded machine are tolerated (and listed); many of them
+		// mean the run did not observe what it claims to
+		fmt.Printf("INCONCLUSIVE property=%s: %d inconclusive cases; first: %s\n", r.Prop, len(r.incon), trunc(r.incon[0], 300))
+		return 2
+	}
 	if len(r.incon) > 0 {
 		fmt.Printf("note: %d inconclusive case(s), listed in evidence; first: %s\n", r.counters["inconclusive_cases"], trunc(r.incon[0], 300))
 	}
